@@ -9,6 +9,7 @@ import CalVerif.Lemmas.Metadata
     lists and the assurance is chiefly the correspondence run. -/
 
 open Meta MetaEnc MetaLemmas
+open Biff (byte le16 le32)
 
 namespace C16
 
@@ -95,26 +96,8 @@ theorem boundsheet_roundtrip (off : Nat) (hoff : off < 4294967296) (vis : SheetV
     (kind : SheetType) (dt : Nat) (hk : xlsKindCode kind = some dt)
     (us : List Nat) (hlen : us.length < 256) (wide : Bool) (hunits : ∀ u ∈ us, u < (if wide then 65536 else 256)) :
     parseSheetMetadata (encodeBoundSheet off (xlsVisCode vis + 64 * reserved) dt us wide) true
-      = .ok (off, ⟨(Biff.decodeUtf16 us).filter (· != 0), kind, vis⟩) := by
-  obtain ⟨hdt, hkl⟩ := xlsKind_lookup kind dt hk
-  unfold parseSheetMetadata encodeBoundSheet
-  have hlen5 : ¬ ((le32 off ++ [byte (xlsVisCode vis + 64 * reserved), byte dt] ++ shortString us wide).length < 5) := by
-    simp [le32]
-  have hlen6 : ¬ ((le32 off ++ [byte (xlsVisCode vis + 64 * reserved), byte dt] ++ shortString us wide).length < 6) := by
-    simp [le32]
-  have hb4 : byteAt (le32 off ++ [byte (xlsVisCode vis + 64 * reserved), byte dt] ++ shortString us wide) 4
-      = (xlsVisCode vis + 64 * reserved) % 256 := by
-    simp [byteAt, le32, byte_toNat]
-  have hb5 : byteAt (le32 off ++ [byte (xlsVisCode vis + 64 * reserved), byte dt] ++ shortString us wide) 5 = dt := by
-    simp [byteAt, le32, byte_toNat]; omega
-  have hdrop : (le32 off ++ [byte (xlsVisCode vis + 64 * reserved), byte dt] ++ shortString us wide).drop 6 = shortString us wide := by
-    simp [le32]
-  have hu32 : Biff.u32 (le32 off ++ [byte (xlsVisCode vis + 64 * reserved), byte dt] ++ shortString us wide) = off := by
-    rw [List.append_assoc]; exact u32_le32 off _ hoff
-  simp only [hlen5, hlen6, if_false, hb4, hb5, xlsVis_lookup, hkl, hdrop, hu32]
-  have := parseShortString_shortString us wide [] hlen hunits
-  rw [List.append_nil] at this
-  rw [this]
+      = .ok (off, ⟨(Biff.decodeUtf16 us).filter (· != 0), kind, vis⟩) :=
+  parseSheetMetadata_encode off hoff vis reserved kind dt hk us hlen wide hunits
 
 /-- the hypotheses of `boundsheet_roundtrip` are satisfiable: a very hidden chart sheet "Aé" stored 8-bit -/
 example :
@@ -135,6 +118,51 @@ theorem boundsheet_unknown_state_rejected (off dt : Nat) (us : List Nat) (wide :
   have : Gen.xlsVisTable.lookup (3 &&& Gen.xlsVisMask) = none := by decide
   rw [this]
   rfl
+
+/-! ## xls: the globals substream -/
+
+/-- **xls: sheets in stream order.** A globals substream is BOF, any sequence of BoundSheet8 records (each with a
+    32-bit offset inside the stream, any visibility and reserved bits, any sheet type of MS-XLS 2.4.28, a name
+    of up to 255 UTF-16 units in either packing), DATEMODE records and records the loop does not interpret, then
+    EOF and the rest of the stream (which must not begin with a CONTINUE record). `parse_workbook` then reports
+    exactly the declared sheets, in stream order, with their names (UTF-16 decoded, NULs removed), kinds and
+    visibilities, no defined names, and the 1904 flag iff a DATEMODE record carries 1. `pd` (the defined-name
+    formula decoder, C14) is arbitrary. -/
+theorem sheets_in_order_xls (pd : Bytes → Res (Option Nat × Text))
+    (recs : List GRec) (hall : ∀ r ∈ recs, r.ok) (tail : Bytes) (htail : Biff.notCont tail)
+    (hoff : ∀ s ∈ declaredSheets recs, s.offset ≤ (encodeGlobals recs tail).length) :
+    parseWorkbookXls pd (encodeGlobals recs tail) =
+      .ok ⟨(declaredSheets recs).map (fun s => s.decoded.2), [], declared1904 recs⟩ := by
+  obtain ⟨fuel, hf⟩ := encodeGlobals_fuel recs tail
+  have hg := xlsGlobals_encode readUnicodeStringNoCch pd recs hall tail htail fuel
+  rw [← hf, foldl_applyRec] at hg
+  have := parseWorkbookXlsWith_of_globals readUnicodeStringNoCch pd _ _ hg (by
+    intro x hx
+    simp only [List.nil_append] at hx
+    obtain ⟨s, hs, rfl⟩ := List.mem_map.mp hx
+    exact hoff s hs)
+  unfold parseWorkbookXls
+  rw [this]
+  simp [List.map_map, Function.comp_def]
+
+/-- **xls: the date-system flag** read from the globals is the one DATEMODE declares -/
+theorem date1904_flag_xls (pd : Bytes → Res (Option Nat × Text))
+    (recs : List GRec) (hall : ∀ r ∈ recs, r.ok) (tail : Bytes) (htail : Biff.notCont tail)
+    (hoff : ∀ s ∈ declaredSheets recs, s.offset ≤ (encodeGlobals recs tail).length) :
+    ∀ wb, parseWorkbookXls pd (encodeGlobals recs tail) = .ok wb → wb.is1904 = declared1904 recs := by
+  intro wb h
+  rw [sheets_in_order_xls pd recs hall tail htail hoff] at h
+  cases h
+  rfl
+
+/-- satisfiable: WRITEACCESS noise, DATEMODE 1, a hidden macro sheet stored 16-bit and a very hidden chart sheet
+    stored 8-bit with reserved bits set -/
+example :
+    parseWorkbookXls (fun _ => .ok (none, []))
+      (encodeGlobals [.neutral 0x005C [1, 2, 3], .date 1, .sheet ⟨40, 0, .hidden, 1, [0x416, 0x44B], true⟩,
+                      .neutral 0x0293 [], .sheet ⟨60, 3, .veryHidden, 2, [65, 233], false⟩] []) =
+      .ok ⟨[⟨[0x416, 0x44B], .macroSheet, .hidden⟩, ⟨[65, 233], .chartSheet, .veryHidden⟩], [], true⟩ := by
+  decide
 
 /-! ## xlsx: `xl/workbook.xml` (event level; quick-xml trusted) -/
 
